@@ -117,12 +117,13 @@ def run(ctx):
     C28.check_actor_pair(ctx, f)
     # AutoCommit getters close first
     fns = C12.autocommit_fns(f)
+    CL = C12.closers(f, fns)
     n = 0
     for p in fns:
         if "SyncWrapper" in p:
             continue
         ab = cfg.body(f.fns[p])
-        closes = [bi for bi, t in ab.calls() if callee(t) == C12.ETC]
+        closes = [bi for bi, t in ab.calls() if callee(t) in CL]
         for k, (bi, t, m) in util.ordinal_keys(C12.doc_calls(ab), lambda it: "%s|%s" % (norm_fn(p), (callee(it[1]) or "?").split("::")[-1])):
             name = (callee(t) or "").split("::")[-1]
             if name in GETTERS:
